@@ -359,6 +359,15 @@ def check(ctx):
                     why = f"mode {v!r}" if v is not None else f"non-constant mode {norm(me)}"
                 ctx.ob("C11.A5", f"{f.short}/mode", ok, loc(f, call),
                        why if ok else f"{why}: append/exclusive/update modes break on a leftover staging file", norm(call))
+                # keyword arguments are handed to open(): an unbuffered raw file (buffering=0) reports a short write
+                # only through write()'s return value, so a truncated staging file would be renamed over the target
+                bf = arg(call, None, "buffering")
+                if bf is not None:
+                    okb = const(bf) not in (0, False) and const(bf) is not None
+                    ctx.ob("C11.A5", f"{f.short}/buffered", okb, loc(f, call),
+                           "staging file is buffered" if okb else
+                           "the staging file is opened unbuffered (raw FileIO): a short write is not an error there, a truncated "
+                           "value is published as if complete", norm(call))
     ctx.floor("C11.A5", "staged_write call sites", n_sites, 6)
 
 
